@@ -93,3 +93,88 @@ void h_Header_write(void)
   Header__write(self, f);
   VF_CANARY();
 }
+
+/* ---------------------------------------------------------------- Parameters::write : prologue, records, zero padding to a
+ * block boundary, back-patched block count and POINT:DATA_START  (appendix A.2).
+ * The group records are abstracted: Group::write is replaced by a contract that lets it write any number of bytes
+ * (at least a 5-byte record) after the current position and possibly remember the DATA_START slot inside what it
+ * wrote.  The alignment arithmetic is therefore proved for every end position of the records, i.e. every residue
+ * of the section length modulo 512, symbolically. */
+/* records end within the first 3 blocks after the header: every residue modulo 512 occurs (three times); larger
+ * buffers exhaust the solver's memory (132 KB symbolic buffer: out of memory at 12 GB) */
+#define VF_PSEC_MAX ((long)(4 * 512))
+void contract_abs_Group__write(const struct Group *self, vf_stream *f, int groupIdx, vf_spos *dataStartPosition)
+__CPROVER_requires(vf_exc == 0 && __CPROVER_r_ok(self, sizeof(*self)) && VF_OSTREAM_OK(f) && __CPROVER_rw_ok(dataStartPosition, sizeof(*dataStartPosition)) &&
+                   f->pos <= VF_PSEC_MAX)
+__CPROVER_assigns(f->pos, f->len, *dataStartPosition, __CPROVER_object_whole(f->buf))
+__CPROVER_ensures(vf_exc == 0 && !f->fail && !f->eof && f->pos >= __CPROVER_old(f->pos) + 5 && f->pos <= VF_PSEC_MAX + 512 &&
+                  f->len == (size_t)f->pos)
+__CPROVER_ensures(*dataStartPosition == __CPROVER_old(*dataStartPosition) ||
+                  (*dataStartPosition >= __CPROVER_old(f->pos) && *dataStartPosition <= f->pos - 2))
+/* the section prologue (before the record) is left alone */
+__CPROVER_ensures(f->buf[512] == __CPROVER_old(f->buf[512]) && f->buf[513] == __CPROVER_old(f->buf[513]) &&
+                  f->buf[514] == __CPROVER_old(f->buf[514]) && f->buf[515] == __CPROVER_old(f->buf[515]));
+
+long vf_rec_end; /* ghost: where the records ended (the harness fixes it through the abstract group) */
+
+void contract_Parameters__write(const struct Parameters *self, vf_stream *f)
+__CPROVER_requires(vf_exc == 0 && __CPROVER_r_ok(self, sizeof(*self)) && self->_groups.size == 1 &&
+                   __CPROVER_r_ok(self->_groups.data, sizeof(struct Group)) && VF_OSTREAM_OK(f) && f->pos == 512 && f->len == 512 &&
+                   f->cap == (size_t)VF_PSEC_MAX + 1024 && !vf_fault_enabled && self->_parametersStart == 1)
+__CPROVER_assigns(f->pos, f->len, f->fail, f->eof, __CPROVER_object_whole(f->buf))
+/*@ C03 C14 : Parameters_write.prologue */
+__CPROVER_ensures(B(512) == 1 && B(513) == 0x50 && B(515) == 84)
+/*@ C03 : Parameters_write.ends-on-block-boundary */ __CPROVER_ensures(!f->fail && f->pos % 512 == 0 && f->len == (size_t)f->pos)
+/*@ C03 C01 : Parameters_write.terminator-present */
+__CPROVER_ensures(f->pos >= 517 + 1 && B(f->pos - 1) == 0)
+/*@ C03 C01 : Parameters_write.block-count-exact */
+__CPROVER_ensures(B(514) == (unsigned)(((f->pos - 512) / 512) & 0xFF))
+/*@ C10 C14 : Parameters_write.nothrow */ __CPROVER_ensures(vf_exc == 0);
+
+void h_Parameters_write(void)
+{
+  struct Parameters *self = (struct Parameters *)vf_alloc(sizeof(*self));
+  self->_groups.size = 1;
+  self->_groups.data = (struct Group *)vf_alloc(sizeof(struct Group));
+  vf_stream *f = vf_mk_ostream((size_t)VF_PSEC_MAX + 1024);
+  f->pos = 512;
+  f->len = 512;
+  vf_fault_enabled = 0;
+  Parameters__write(self, f);
+  VF_CANARY();
+}
+
+/* second query: the padding is made of zero bytes and the DATA_START slot holds the 1-based block of the data section */
+long vf_dsp_seen;
+void contract_abs2_Group__write(const struct Group *self, vf_stream *f, int groupIdx, vf_spos *dataStartPosition)
+__CPROVER_requires(vf_exc == 0 && __CPROVER_r_ok(self, sizeof(*self)) && VF_OSTREAM_OK(f) && __CPROVER_rw_ok(dataStartPosition, sizeof(*dataStartPosition)) &&
+                   f->pos <= VF_PSEC_MAX)
+__CPROVER_assigns(f->pos, f->len, *dataStartPosition, vf_rec_end, __CPROVER_object_whole(f->buf))
+__CPROVER_ensures(vf_exc == 0 && !f->fail && !f->eof && f->pos >= __CPROVER_old(f->pos) + 5 && f->pos <= VF_PSEC_MAX + 512 &&
+                  f->len == (size_t)f->pos && vf_rec_end == f->pos)
+__CPROVER_ensures(*dataStartPosition >= __CPROVER_old(f->pos) && *dataStartPosition <= f->pos - 2)
+__CPROVER_ensures(f->buf[512] == __CPROVER_old(f->buf[512]) && f->buf[513] == __CPROVER_old(f->buf[513]) &&
+                  f->buf[514] == __CPROVER_old(f->buf[514]) && f->buf[515] == __CPROVER_old(f->buf[515]));
+
+void contract_Z_Parameters__write(const struct Parameters *self, vf_stream *f)
+__CPROVER_requires(vf_exc == 0 && __CPROVER_r_ok(self, sizeof(*self)) && self->_groups.size == 1 &&
+                   __CPROVER_r_ok(self->_groups.data, sizeof(struct Group)) && VF_OSTREAM_OK(f) && f->pos == 512 && f->len == 512 &&
+                   f->cap == (size_t)VF_PSEC_MAX + 1024 && !vf_fault_enabled && self->_parametersStart == 1)
+__CPROVER_assigns(f->pos, f->len, f->fail, f->eof, vf_rec_end, __CPROVER_object_whole(f->buf))
+/*@ C03 C01 C14 : Parameters_write.padding-is-zero */
+__CPROVER_ensures((vf_gc >= (size_t)vf_rec_end && vf_gc < (size_t)f->pos) ==> f->buf[vf_gc] == 0)
+/*@ C03 C01 : Parameters_write.at-least-one-padding-byte */ __CPROVER_ensures(f->pos > vf_rec_end)
+/*@ C03 : Parameters_write.less-than-one-block-of-padding-plus-terminator */ __CPROVER_ensures(f->pos - vf_rec_end <= 512);
+
+void h_Z_Parameters_write(void)
+{
+  struct Parameters *self = (struct Parameters *)vf_alloc(sizeof(*self));
+  self->_groups.size = 1;
+  self->_groups.data = (struct Group *)vf_alloc(sizeof(struct Group));
+  vf_stream *f = vf_mk_ostream((size_t)VF_PSEC_MAX + 1024);
+  f->pos = 512;
+  f->len = 512;
+  vf_fault_enabled = 0;
+  Parameters__write(self, f);
+  VF_CANARY();
+}
